@@ -87,6 +87,8 @@ func TestWordsAgainstStdlib(t *testing.T) {
 	for _, s := range []string{
 		"plain text", "=?UTF-8?q?caf=C3=A9?=", "=?UTF-8?b?Y2Fmw6k=?= au lait", "=?UTF-8?q?a?= =?UTF-8?q?b?=",
 		"=?UTF-8?q?a_b?=  c", "x =?UTF-8?Q?=E2=82=AC?= y", "=?utf-8?B?4oKs?= =?utf-8?B?4oKs?=",
+		"=?ISO-8859-1?q?caf=E9.txt?=", "=?iso-8859-1?b?Y2Fm6Q==?= x", "=?US-ASCII?q?=C3=9Cbersicht?=", "=?ISO-8859-1?q?=C3=9Cbersicht?=",
+		"=?US-ASCII?q?plain_words?=",
 	} {
 		want, err := dec.DecodeHeader(s)
 		got, err2 := DecodeWords(s)
